@@ -229,6 +229,7 @@ func init() {
 		Explanation: "Termination and conservation of input are properties of template + external driver on every input: NOT decidable here. Decided is the consumption accounting the runtime relies on: EOF is reported only for the end-of-input rune, after the pending actions, and only when an explicit per-instance flag says nothing was consumed since the last token boundary; every consume sets that flag, every boundary arm and Reset clear it and return to state 0 (EOFL-1, EOFL-3); actions are unreachable while nothing was consumed, so an empty match is never a token (EOFL-2); plus FMT-3 (result codes agree with the driver). " +
 			"Known limitation (not a check): text accumulated by action-less fragments is dropped without error when the input ends; the driver is external.",
 		Run: func(c *Ctx) {
+			ruleCC5(c, "CC-5") // -1 (end of input) can never be a range bound
 			ruleEOFL(c)
 			ruleFMT3(c)
 			ruleLEX3(c)
@@ -366,6 +367,7 @@ func init() {
 			ruleCC2(c)
 			ruleCC3(c)
 			ruleCC4(c)
+			ruleCC5(c, "CC-5")
 			ruleLEX4(c)
 			ruleLEX1(c)
 			ruleLEX7(c)
